@@ -8,7 +8,7 @@ build() {
   (cd "$here/tool" && go build -o "$bin" .) || { echo "UNDECIDED: cannot build the checker"; exit 2; }
 }
 # rebuild the checker if it is missing or older than its sources
-if [ ! -x "$bin" ] || [ -n "$(find "$here/tool" -name '*.go' -newer "$bin" -print -quit)" ]; then build; fi
+if [ ! -x "$bin" ] || [ -n "$(find "$here/tool" \( -name '*.go' -o -name '*.txt' \) -newer "$bin" -print -quit)" ]; then build; fi
 case "$1" in
   --replay) exec "$bin" -replay "$2" -verif "$here" ;;
   selftest) shift; exec "$bin" -selftest -verif "$here" "$@" ;;
